@@ -161,27 +161,27 @@ def music_mask(data):
     return bytes(d)
 
 
-def write_p8(regions, code, version=33, label=None, final_newline=True):
-    """Reference .p8 writer.  regions: dict name -> bytes; code: P8SCII bytes."""
-    out = [P8_HEADER, b'version %d\n' % version, b'__lua__\n']
-    out.append(p8_to_unicode(code).encode('utf-8'))
+def write_p8(regions, code, version=33, label=None, final_newline=True, order=None, omit=()):
+    """Reference .p8 writer.  regions: dict name -> bytes; code: P8SCII bytes.
+    order: section order (default lua gfx label gff map sfx music); omit: sections left out entirely."""
+    parts = {}
+    lua = [b'__lua__\n', p8_to_unicode(code).encode('utf-8')]
     if final_newline and not code.endswith(b'\n'):
-        out.append(b'\n')
-    out.append(b'__gfx__\n')
-    out.extend((r + '\n').encode() for r in gfx_rows(regions['gfx']))
+        lua.append(b'\n')
+    parts['lua'] = lua
+    parts['gfx'] = [b'__gfx__\n'] + [(r + '\n').encode() for r in gfx_rows(regions['gfx'])]
     if label is not None:
-        out.append(b'__label__\n')
-        out.extend((r + '\n').encode() for r in gfx_rows(label))
-    out.append(b'\n__gff__\n')
+        parts['label'] = [b'__label__\n'] + [(r + '\n').encode() for r in gfx_rows(label)]
     g = regions['gff']
-    out.extend((_hex(g[i:i + 128]) + '\n').encode() for i in range(0, 256, 128))
-    out.append(b'__map__\n')
+    parts['gff'] = [b'\n__gff__\n'] + [(_hex(g[i:i + 128]) + '\n').encode() for i in range(0, 256, 128)]
     m = regions['map']
-    out.extend((_hex(m[i:i + 128]) + '\n').encode() for i in range(0, 4096, 128))
-    out.append(b'__sfx__\n')
-    out.extend((r + '\n').encode() for r in sfx_rows(regions['sfx']))
-    out.append(b'__music__\n')
-    out.extend((r + '\n').encode() for r in music_rows(regions['music']))
+    parts['map'] = [b'__map__\n'] + [(_hex(m[i:i + 128]) + '\n').encode() for i in range(0, 4096, 128)]
+    parts['sfx'] = [b'__sfx__\n'] + [(r + '\n').encode() for r in sfx_rows(regions['sfx'])]
+    parts['music'] = [b'__music__\n'] + [(r + '\n').encode() for r in music_rows(regions['music'])]
+    out = [P8_HEADER, b'version %d\n' % version]
+    for name in (order or ('lua', 'gfx', 'label', 'gff', 'map', 'sfx', 'music')):
+        if name in parts and name not in omit:
+            out.extend(parts[name])
     out.append(b'\n')
     return b''.join(out)
 
